@@ -449,7 +449,7 @@ func c13ModelProm(r *h.Result, rng *h.Rng, n int) error {
 				anch = "^(?:" + val + ")$"
 			}
 			raw = append(raw, hx(name)+":"+mt[t]+":"+hx(anch))
-			down = append(down, hx(name)+":"+mt[t]+":"+hx(val))
+			down = append(down, hx(name)+":"+mt[t]+":"+hx(anch)) // anchored on the down-sampling path too (fix 25cc5fb)
 		}
 		p := c.planner()
 		hs := fmt.Sprintf("%s %d %d %d %d %s", hx(p.Metrics15sTableName), hints.Start, hints.End, hints.Step, hints.Range, hx(hints.Func))
